@@ -66,6 +66,37 @@ def enum_check(prop, harness, tier, level, rule, assumptions, args=(), witness=(
     return C.conclude(prop, tier, level, cov, assumptions, t0, findings)
 
 
+def enum_pass(prop, harness, tier, args, findings, witness=(), flavour="asan", label="pass"):
+    """An additional sharded enumeration inside another check: runs it, applies the replay discipline to every distinct key,
+    appends to `findings` and returns the merged result (evaluations, nontrivial, counters, ...)."""
+    bdir = C.build([harness], flavour)
+    binary = os.path.join(bdir, harness)
+    full = ["--tier", tier] + list(args)
+    res = C.run_sharded(binary, full)
+    for shard, rc, err in res["crashed"]:
+        raise C.InternalError("%s: shard %d of %s exited with rc=%s: %s" % (label, shard, harness, rc, err[-1500:]))
+    by_key = {}
+    for v in res["violations"]:
+        by_key.setdefault(v["key"], v)
+    for key, v in sorted(by_key.items()):
+        ok = 0
+        for _ in range(2):
+            vio, rc, err = C.run_replay(binary, v["case"], full)
+            if any(x["key"] == key for x in vio):
+                ok += 1
+        if ok != 2:
+            raise C.InternalError("%s: violation %s did not reproduce deterministically (%d/2): %s" % (label, key, ok, v.get("msg", "")[:500]))
+        case = dict(v["case"])
+        case["harness"] = harness
+        findings.append(dict(key=key, msg=v.get("msg", ""), replay=C.write_replay(prop, harness, key, v.get("msg", ""), case)))
+    for w in witness:
+        if res["counters"].get(w, 0) <= 0:
+            raise C.InternalError("%s: witness counter '%s' is zero" % (label, w))
+    if res["evaluations"] <= 0:
+        raise C.InternalError("%s: no evaluations" % label)
+    return res
+
+
 def enum_replay(prop, harness, path, args=(), flavour="asan"):
     import json
     doc = json.load(open(path))
